@@ -54,7 +54,8 @@ def run(rep, tier, rng):
             continue
         n = int(a.split()[1].split("=")[1])
         dist["ok"] += 1
-        for m in sorted(set([64, n - 2, n - 1, n, n + 1, n + 2, 2 * n])):
+        inner = [64 + r.below(n - 64) for _ in range(4)] if n > 66 else []     # limits crossed anywhere inside the run
+        for m in sorted(set([64, n - 2, n - 1, n, n + 1, n + 2, 2 * n] + inner)):
             if m < 64:
                 continue
             # the expected-cycles hint (any value <= m) must not move the limit
@@ -81,6 +82,32 @@ def run(rep, tier, rng):
             found = True
         elif b != a:
             rep.violation("model and implementation disagree", {"kind": "correspondence", "family": "exec", "case": c, "impl": a, "model": b})
+            found = True
+    # 3b. unbounded loops inside a called procedure and inside a kernel procedure (syscall): each in its own
+    #     harness process under a resource limit, so that a run that ignores the limit is reported, not awaited
+    import subprocess, resource
+    loop = "J S 1 push:1 L S 3 push:1 push:1 drop"
+    ctx_cases = []
+    for m in (64, 100, 4097):
+        for hdr, root in (("T 1 U %s" % loop, "C 0"), ("T 1 K %s" % loop, "Y 0"), ("T 1 K %s" % loop, "J S 2 pad drop Y 0"),
+                          ("T 2 U %s K J S 2 pad drop C 0" % loop, "Y 1")):
+            ctx_cases.append(("%d | | | %s %s" % (m, hdr, root), "ERR CycleLimit %d clk=%d" % (m, m + 1)))
+    for c, e in ctx_cases:
+        dist["unbounded-in-context"] += 1
+        path = common.os.path.join(common.WORK, "c15ctx.cases")
+        open(path, "w").write(c + "\n")
+        def lim():
+            resource.setrlimit(resource.RLIMIT_AS, (2 * 2**30, 2 * 2**30))
+            resource.setrlimit(resource.RLIMIT_CPU, (20, 20))
+        try:
+            pr_ = subprocess.run([common.MVH, "run", "exec", path], stdout=subprocess.PIPE, stderr=subprocess.PIPE, text=True, timeout=60, preexec_fn=lim)
+            got = [l[3:] for l in pr_.stdout.split("\n") if l.startswith("@@ ")]
+            a = got[0] if got else "NO-RESULT rc=%d" % pr_.returncode
+        except subprocess.TimeoutExpired:
+            a = "NO-RESULT timeout"
+        if a != e:
+            rep.violation("an unbounded loop inside a called / kernel procedure does not stop at the cycle limit: expected '%s' got '%s'" % (e, a[:80]),
+                          {"kind": "search", "family": "exec", "case": c, "impl": a[:300], "expected": e})
             found = True
     # 4. option validation
     ocases = []
